@@ -18,6 +18,9 @@ def check(run):
                 "in {1/2,1,2,4}; Hit scores under limit=None / terms=True judged by TLC against QuerySem!Denote")
     cases, meta = c01.build_cases(run, rng, 12 if quick else 120, 30 if quick else 40, ndocs=(4, 9), depth=3,
                                   paths=("unlimited", "terms"), scored_only=True, cmp="full", kinds=("ranked", "error"), ops=NOFUZZY)
+    for cs in cases:           # limited searches are C05's subject
+        for qo in cs["qs"]:
+            qo["obs"] = [o for o in qo["obs"] if o.get("k", 0) == 0]
     rejects = qobs.judge(run, cases)
     c01.report(run, "C09", cases, meta, rejects, "c09")
 
